@@ -333,7 +333,7 @@ pub fn run_and_record(
             let full: Vec<usize> = ro.exec.trace.iter().map(|d| d.chosen).collect();
             let mut classes = vec![format!("{} preemption(s)", pre.min(4))];
             if sc.grow {
-                classes.push("commits grow and remap the file".to_string());
+                classes.push(if prop == "C09" { "database starts with a free list of several pages".to_string() } else { "commits grow and remap the file".to_string() });
             }
             if sc.lock_yield {
                 classes.push("every lock acquisition is a scheduling point".to_string());
